@@ -3,9 +3,9 @@
    run; the engine (Model.Standardize) is hand-modelled and tied by correspondence (harness/checks/C14.py).
    NOT theorems (search only): idempotence, numbering independence, tautomer enumeration, neutralisation. *)
 From Coq Require Import ZArith List String Bool.
-From Model Require Import PyBase Graph PeriodicTable Standardize StandardizeMatch StandardizeHyd.
+From Model Require Import PyBase Graph PeriodicTable Standardize StandardizeMatch StandardizeHyd StandardizeNeutral.
 From Gen Require Import Elements StdRules.
-From Proofs Require Import StandardizeProofs StandardizeExt StandardizeTables StandardizeHydProofs StandardizeHydGen.
+From Proofs Require Import StandardizeProofs StandardizeExt StandardizeTables StandardizeHydProofs StandardizeHydGen StandardizeNeutralProofs.
 Import ListNotations.
 Open Scope Z_scope.
 
@@ -240,3 +240,28 @@ Theorem C14_implicify_no_protium : forall vlookup g,
   (forall na, In na (m_atoms g) -> is_protium (snd na) = false) -> implicify vlookup g = Ok g.
 Proof. exact implicify_no_protium. Qed.
 Print Assumptions C14_implicify_no_protium.
+
+(* ---- neutralisation (third wave) ---- *)
+(* protons moved from the sites `minus` to the disjoint sites `plus` (sites = atoms with a known hydrogen count): atom numbers,
+   elements, isotopes and the adjacency are unchanged; net charge and total hydrogen count BOTH change by #plus - #minus
+   ("neutralisation changes both by the same number of protons") *)
+Theorem C14_move_protons_balance : forall g minus plus,
+  NoDup (ids g) -> NoDup minus -> NoDup plus -> (forall n, In n minus -> ~ In n plus) -> sites_ok g minus -> sites_ok g plus ->
+  let g' := move_protons g minus plus in
+  let d := Z.of_nat (List.length plus) - Z.of_nat (List.length minus) in
+  skeleton g' = skeleton g /\ m_adj g' = m_adj g /\ total_charge g' = total_charge g + d /\ total_h g' = total_h g + d.
+Proof. exact move_protons_balance. Qed.
+Print Assumptions C14_move_protons_balance.
+
+(* neutralize(keep_charge=True) (model of AcidBase._neutralize; donor / acceptor sites and the chosen combination of the larger
+   side are inputs): balanced, more donors or more acceptors -- net charge and hydrogen count are conserved *)
+Theorem C14_neutralize_keep_conserves : forall g donors acceptors chosen g',
+  NoDup (ids g) -> NoDup donors -> NoDup acceptors -> NoDup chosen ->
+  (forall n, In n donors -> ~ In n acceptors) ->
+  (forall n, In n chosen -> if (List.length acceptors <? List.length donors)%nat then In n donors else In n acceptors) ->
+  List.length chosen = Nat.min (List.length donors) (List.length acceptors) ->
+  sites_ok g donors -> sites_ok g acceptors ->
+  neutralize_model true g donors acceptors chosen = Some g' ->
+  skeleton g' = skeleton g /\ m_adj g' = m_adj g /\ total_charge g' = total_charge g /\ total_h g' = total_h g.
+Proof. exact neutralize_keep_conserves. Qed.
+Print Assumptions C14_neutralize_keep_conserves.
